@@ -175,6 +175,7 @@ def mk_state_create(cov_kind, with_key):
             E.st.assume_forall([INT], lambda i: zr(cov_in.at(i, i)) > 0, "cov_in.positive_diagonal")
         s = E.call(Q + "CMAESState.create", key, x0, var, cov_in)
         f = s.fields
+        E.oblige("canary.mean_zero", Sym(zr(f["mean"].at(0)) == 0), assume_after=False)
         E.oblige("init.counters_zero", band(C.compare("==", f["it"], 0), C.compare("==", f["eigen_decomp_updated"], 0), C.compare("==", f["best_fitness_it"], 0)))
         if is_plus_inf(f["best_fitness"]):
             E.st.ok("init.best_fitness_is_plus_infinity")
@@ -206,7 +207,6 @@ def mk_state_create(cov_kind, with_key):
             E.oblige("init.key_kept", C.compare("==", f["key"], key))
         else:
             E.oblige("init.default_key_is_key0", C.compare("==", f["key"], Sym(C.uf("key_of_seed", INT, C.KEY)(z3.IntVal(0)))))
-        E.oblige("canary.mean_zero", Sym(zr(f["mean"].at(0)) == 0), assume_after=False)
     return h
 
 
@@ -272,6 +272,7 @@ def h_ask(E):
     s, sf = mk_state(E, n)
     pop, samples, fit = mk_population(E, P, n)
     x = E.call(Q + "get_next_parameters", cfg, s, pop)
+    E.oblige("canary.ask", Sym(zr(x.at(0)) == zr(samples.at(0, 0))), assume_after=False)
     it = sf["it"]
     k = it - P * (it // P)  # position inside the current generation
     E.oblige("ask.position_in_range", band(k >= 0, C.compare("<", k, P)))
@@ -285,7 +286,6 @@ def h_ask(E):
         E.st.ok("ask.pure")
     else:
         E.st.fail("ask.pure", "get_next_parameters modified the optimiser state")
-    E.oblige("canary.ask", Sym(zr(x.at(0)) == zr(samples.at(0, 0))), assume_after=False)
 
 
 def mk_tell(feedback_kind, best_inf):
@@ -314,6 +314,11 @@ def mk_tell(feedback_kind, best_inf):
         else:
             better = C.compare("<=", cost, best)  # ties: the later candidate wins
             new_best = smin(best, cost)
+        if best_inf:
+            E.oblige("canary.tell_cost_zero", C.compare("==", f2["best_fitness"], 0), assume_after=False)
+        else:
+            E.oblige("canary.tell_never_improves", C.compare("!=", f2["best_fitness"], cost), assume_after=False)
+            E.oblige("canary.tell_always_improves", C.compare("==", f2["best_fitness"], cost), assume_after=False)
         E.oblige("tell.counts_tells", C.compare("==", f2["it"], it + 1))
         E.oblige("tell.best_fitness_is_min_so_far", C.compare("==", f2["best_fitness"], new_best))
         E.oblige("tell.best_fitness_never_increases", True if best_inf else C.compare("<=", f2["best_fitness"], best))
@@ -333,11 +338,6 @@ def mk_tell(feedback_kind, best_inf):
             E.st.ok("tell.distribution_untouched")
         else:
             E.st.fail("tell.distribution_untouched", str([a for a in frame if f2[a] is not sf[a]]))
-        if best_inf:
-            E.oblige("canary.tell_cost_zero", C.compare("==", f2["best_fitness"], 0), assume_after=False)
-        else:
-            E.oblige("canary.tell_never_improves", C.compare("!=", f2["best_fitness"], cost), assume_after=False)
-            E.oblige("canary.tell_always_improves", C.compare("==", f2["best_fitness"], cost), assume_after=False)
     return h
 
 
@@ -356,6 +356,7 @@ def h_history3(E):
         E.call(Q + "set_evaluation_feedback", cfg, s, pop, fbs[-1])
     c = [ite(cf["maximize"], -x, x) for x in fbs]
     f = s.fields
+    E.oblige("canary.history", C.compare("==", f["best_fitness"], c[0]), assume_after=False)
     e = ite(C.compare("<=", c[2], smin(c[0], c[1])), 2, ite(C.compare("<=", c[1], c[0]), 1, 0))
     E.oblige("history.best_fitness_is_min_of_all_told", C.compare("==", f["best_fitness"], smin(c[0], c[1], c[2])))
     E.oblige("history.counts_tells", C.compare("==", f["it"], 3))
@@ -365,7 +366,6 @@ def h_history3(E):
         tensor_eq(E, f"history.asked_candidate_{r}_is_population_member_{r}", asked[r], T.index(samples, r))
     E.st.oblige_forall("history.best_params_is_latest_minimiser", [INT], lambda j: z3.Implies(in_range(j, n), zr(bp.at(j)) == zr(T.index(samples, (e, Sym(j))))), hint="j")
     E.oblige("history.return_reported_by_train_cmaes", implies(cf["maximize"], C.compare("==", -f["best_fitness"], C.smax(fbs[0], fbs[1], fbs[2]))))
-    E.oblige("canary.history", C.compare("==", f["best_fitness"], c[0]), assume_after=False)
 
 
 def h_sample_population(E):
@@ -427,6 +427,8 @@ def mk_update(active, probe_active_positivity=False):
         code_node = X.node_of_app(E, T.as_tensor(f2["mean"]).at(Sym(st.fresh("jm", INT))))
         if spec_nodes and code_node is not None:
             X.lemma_sum_congr_nodes(E, "mean.lemma_same_terms", code_node, spec_nodes[0], using=[])
+        else:  # sums unrolled (concrete sizes) or mean' is not a sum: the premise is the equation itself
+            tensor_eq(E, "mean.lemma_same_terms.premise_terms_equal", f2["mean"], want_mean, using=[])
         tensor_eq(E, "mean.weighted_recombination_of_mu_best", f2["mean"], want_mean, using=["mean.lemma_same_terms"])
         tensor_eq(E, "mean.last_mean_is_old_mean", f2["last_mean"], sf["mean"], using=[])
         # ---- S: step size
@@ -534,6 +536,56 @@ TASKS = [
 ] + [Task(f"set_params/flat_params[leaves={spec}]", mk_roundtrip(spec),
           bounded="number of parameter leaves <= 3 (leaf ranks 1 and 2, all leaf dimensions symbolic)") for spec in ("1", "2", "21", "12", "212")]
 
-TRUSTED = []
-ASSUMPTIONS = []
-NOT_COVERED = []
+# CEM TASKS ---------------------------------------------------------------
+# The cross-entropy-method half of C16 (cem_sample / cem_update / optimize_cem:
+# samples within the bounds, exactly the n_elite best candidates, mean stays in
+# the box) is contracted in contracts/C10.py.  Import them here once C10 is
+# final (not duplicated on purpose):
+#   from .C10 import TASKS as _C10_TASKS
+#   TASKS += [t for t in _C10_TASKS if t.name.startswith(("cem_", "optimize_cem"))]
+
+TRUSTED = [
+    "reals for floats (weights sum to one / symmetry / positivity are exact statements over the reals)",
+    "lemmas/SumLemmas.lean (PyvcSum.c16_sum_pos, c16_sum_nonneg, c16_sum_div, c16_sum_single, c16_sum_congr, sum_congr_range): "
+    "the finite-sum rules applied by pyvc/lib/ext_cmaes.py - each premise is a named obligation `*.lemma_*.premise_*`",
+    "log strictly increasing on (0, inf), log 1 = 0; exp strictly increasing and positive; sqrt(x)^2 = x for x >= 0 (pyvc.state.theory_axioms)",
+    "jnp.argsort: a stable ascending sort permutation of range(len(a)) (pyvc/lib/ext_cmaes.py)",
+    "jnp.log1p(x) = log(1+x); jnp.linalg.norm(x) = sqrt(sum x_i^2); np.prod(shape) = product of the dimensions",
+    "parameter trees: jax.tree_util.tree_leaves(state) lists the nnx.Param leaves in the order in which tree_unflatten(tree_structure(state), .) "
+    "puts them back; nnx.update / nnx.state write / read exactly these leaves (pyvc/lib/ext_cmaes.py, ParamNet)",
+    "jax.random.multivariate_normal(key, mean, cov, shape) has shape shape + (n,); jnp.clip(x, lo, hi) = min(max(x, lo), hi)",
+    "IEEE ordering of +-inf against finite numbers: -inf < x < +inf (pyvc.core.compare)",
+]
+ASSUMPTIONS = [
+    "n_params >= 1 and population size n_samples_per_update >= 2 (population 1 gives mu = 0 and a ZeroDivisionError in CMAESConfig.create - outside the property's quantifier)",
+    "update_search_distribution / set_evaluation_feedback / get_next_parameters are verified against ANY configuration satisfying the well-formed predicate "
+    "WF (mu = floor(P/2) >= 1, weights positive and non-increasing, mueff > 0, 0 < c1, 0 < cmu, c1 + cmu < 1, 0 < cc <= 1, 0 < cs < 1, damps > 0); "
+    "CMAESConfig.create is proved to establish every clause of WF (tasks CMAESConfig.create*), none had to be left as an unproved assumption",
+    "state precondition of the update: var > 0, cov symmetric with positive diagonal (established by CMAESState.create for covariance=None, a positive diagonal, "
+    "or a symmetric matrix with positive diagonal - proved - and preserved by the default update - proved)",
+    "fitness values told to the optimiser are finite reals in the symbolic tasks; +inf as the initial incumbent is modelled exactly; NaN / +-inf feedback is checked natively only (replay driver)",
+    "inv_sqrt (eigh based) is opaque: an uninterpreted (n, n) array; no obligation depends on its value",
+    "the incumbent clause is proved as an inductive step from an arbitrary state plus a 3-tell history from the initial state; longer histories follow by induction on the step",
+]
+NOT_COVERED = [
+    "positive variances for the ACTIVE variant (config.active=True): not a theorem - cov'_ii = a*cov_ii + c1*pc_i^2 + (cmu + neg_cmu/2)*sum_k w_k n_ki^2 - neg_cmu*sum_k w_k m_ki^2 "
+    "with m the mu WORST candidates, unbounded below. Solver counter-model (population 2, mu 1, n_params 2): see ACTIVE_COUNTER_MODEL in this file; "
+    "native witness through the public API: samples [[.1,0],[0,.1],[-.1,0],[5,0],[-5,0],[5,.1]] (worst candidates 5 sigma from the mean), fitness = |x|^2, variance 1, identity covariance, "
+    "n_samples_per_update=6, active=True gives diag(cov') = [-0.61, 0.82] (replay/drivers/c16_cmaes.py native_extras); not observed for populations drawn by sample_population (0 of 40 generations)",
+    "NaN fitness: over the reals there is no NaN; natively `NaN <= best` is False, so a NaN tell never becomes the incumbent, still counts as a tell and is stored in the population "
+    "(checked by the replay driver on histories [3, NaN, 3, inf, -inf, 1], [NaN, NaN], [inf, 2, NaN, 2]); a NaN inside population.fitness is ranked last by jnp.argsort - not modelled",
+    "floating-point rounding: sum(weights) == 1, symmetry of cov' and the step-size bound hold exactly over the reals; natively they hold up to rounding (driver tolerance 1e-5)",
+    "set_params / flat_params for networks with more than 3 parameter leaves or leaves of rank > 2: bounded stand-in tasks (1-3 leaves, rank 1 and 2, symbolic dimensions); "
+    "the replay driver checks real nnx networks (Linear, Linear+LayerNorm, MLP with 6 leaves)",
+    "Population.create for a symbolic population size (python list replication): bounded stand-in, sizes 1, 2, 3, 6",
+    "restart / termination heuristics (is_cmaes_finished) and train_cmaes are not part of the property",
+    "CEM half of the property: contracts/C10.py",
+]
+REPLAY = {"": "c16_cmaes"}
+EXPLANATION = (
+    "CMAESConfig.create is executed symbolically for every n_params >= 1 and population >= 2 (and the default population): the recombination weights equal the documented "
+    "log-rank formula, are positive, non-increasing and sum to one (sum lemmas with obliged premises), and the scalar constants satisfy the well-formed predicate WF. "
+    "set_evaluation_feedback is an inductive step for the incumbent invariant (min so far, later candidate on ties, the asked candidate, tell counter); "
+    "update_search_distribution is verified against any WF configuration for symbolic population size and dimension: mean = weighted sum of the mu best by an ascending "
+    "sort of the told fitness, sigma'/sigma <= e^0.6, symmetric covariance for both variants (diagonal-product collapse + congruence of the rank-mu sums), positive variances for the default variant."
+)
